@@ -173,6 +173,38 @@ CLAIMED['C02'] = ('Calibration, Trace_C02',
     'finding: grouping failures when the equal-chunk seeding straddles populations (unequal sizes).',
     'DESIGN.md 3.3, 4 C02')
 
+CLAIMED['C10'] = ('ExcelUI, MC_ExcelUI',
+    'TLA+ row machine of process_samples_table that emits the library-call program of each row (`calls`), StatColumns and '
+    'HistScale; TLC enumerates tables of healthy row kinds; the harness executes each program by hand with the library '
+    'functions and compares bitwise with what the workflow returns, then the statistics and histogram sheets',
+    'For every generated healthy row (14 unit combinations, int/float, two instruments with different channel names, four '
+    'spellings per unit, two gate fractions, 1..2-row tables): the returned sample equals the hand composition bitwise '
+    '(values, ranges, metadata); every statistics column equals the library statistic of the gated sample (geometric on '
+    'positive events, with note); counts, acquisition time; histogram counts = np.histogram over every other edge of hist_bins.',
+    'Trusted: TLC, value parser, the by-hand interpreter (only public library calls named by the spec). Sampling of 2-row '
+    'tables in the quick tier.',
+    'DESIGN.md 3.4, 4 C10')
+CLAIMED['C11'] = ('ExcelUI, MC_ExcelUI',
+    'TLA+ batch loop with per-row try block, loop-carried locals and the row-local function RowOutcome; TLC checks '
+    'NeverAborted, Isolation, TableOrder, EmptyTable, NoStaleRead; every table of <= 2 rows over 33 row kinds (and sampled '
+    'longer tables with reorderings) is rendered and processed by the real workflow',
+    'Exhaustive over all assignments of {healthy kinds, each documented fault, two-fault rows} to tables of 0..2 rows; '
+    'sampled tables of 3..5 rows and their reversals; per row the outcome class, ERROR note and empty statistics, key '
+    'order, and bitwise equality of every healthy row with its single-row run; bead tables over all bead-row faults.',
+    'Trusted: TLC, value parser, message patterns that classify row errors; either of two documented messages accepted '
+    'where both checks legitimately apply.',
+    'DESIGN.md 3.4, 4 C11')
+CLAIMED['C15'] = ('Workbook, ExcelUI',
+    'TLA+ round-trip model of write_workbook/read_table (rows without identifier dropped, duplicates among identified rows '
+    'refused) enumerated exhaustively by TLC and executed; output-workbook schema (sheet order, appended columns) listed '
+    'in the spec and checked on generated workbooks and the shipped example run through excel_ui.run',
+    'Exhaustive round trip for all tables of <= 3 (4 thorough) rows; run() on generated well-formed workbooks with plots / '
+    'histogram sheet / output-path options incl. bead rows with 1..3 clustering channels, and on examples/experiment.xlsx: '
+    'no exception, sheets in order, input rows and columns preserved, documented columns appended in order, every documented '
+    'figure file present.',
+    'Trusted: TLC, value parser, pandas/openpyxl for writing inputs and reading outputs. run() cases are a sample, not exhaustive.',
+    'DESIGN.md 3.4, 4 C15')
+
 NOT_APPLICABLE = {
     'C09': 'continuum numerics only (L-BFGS-B recovery of real parameters, real-analytic identities of closures): no '
            'state, history or case analysis for a TLA+ specification to enumerate; discrete fragment (Fit refuses <3 '
